@@ -52,22 +52,34 @@ def setup():
     shutil.copytree("/verif/replays/regress", f"{ROOT}/replays/regress")
 
 def build():
-    return sh("cargo build --release --offline 2>&1 | tail -15", cwd=HARN)
+    rc, out = sh("cargo build --release --offline 2>&1 | tail -15", cwd=HARN)
+    if rc != 0 or "error" in out:
+        return rc, out
+    return sh("cargo build --profile dbg --offline 2>&1 | tail -15", cwd=HARN)
 
-def run_check(pid, tier="quick", timeout=900):
+def run_one(binary, pid, tier, timeout, env=""):
     t0 = time.time()
     try:
-        rc, out = sh(f"{HARN}/target/release/nvh {pid} {tier}", timeout=timeout)
+        rc, out = sh(f"{env} {binary} {pid} {tier}", timeout=timeout)
     except subprocess.TimeoutExpired:
         return 124, "timeout", time.time() - t0
     if rc < 0 or rc > 128:
         # the harness process died by a signal: do what ./check does (crash triage)
         signo = -rc if rc < 0 else rc - 128
-        rc2, out2 = sh(f"/verif/tools/crash_triage.sh {HARN}/target/release/nvh {pid} {ROOT}/replays/found {signo}", timeout=1200)
-        first = [l for l in out2.splitlines() if l.strip()]
+        rc2, out2 = sh(f"{env} /verif/tools/crash_triage.sh {binary} {pid} {ROOT}/replays/found {signo} {tier}", timeout=2400)
+        lines = [l.strip() for l in out2.splitlines() if l.strip()]
+        first = [l for l in lines if not l.startswith("NOTE") and "Segmentation fault" not in l and "Aborted" not in l] or lines
         return rc2, ("crash-triage: " + " | ".join(first[:2]))[:300], time.time() - t0
     sig = [l for l in out.splitlines() if "signature=" in l]
     return rc, (sig[0].strip() if sig else ""), time.time() - t0
+
+def run_check(pid, tier="quick", timeout=900):
+    """what ./check does: the optimised build, then (if it is silent) the replica build"""
+    rc, sig, dt = run_one(f"{HARN}/target/release/nvh", pid, tier, timeout)
+    if rc != 0:
+        return rc, sig, dt
+    rc2, sig2, dt2 = run_one(f"{HARN}/target/dbg/nvh", pid, tier, timeout, env="VERIF_PROFILE=dbg VERIF_SCALE=0.5 VERIF_SKIP_STREAMS=long-texts")
+    return rc2, (("replica-build: " + sig2) if rc2 == 1 else sig2), dt + dt2
 
 def revert():
     sh("git checkout -- . && git clean -fdq -e target", cwd=REPO)
